@@ -57,7 +57,11 @@ CLAIMED = {
  "C20": dict(cat="exploration", tech="process-level runtime monitor: the tuftool binary built from /repo is driven through seeded command sequences; after every invocation the file is compared with its previous bytes and judged by an independent parser/verifier",
     text="Sequences of 3..12 `tuftool root` invocations (init, add-key with RSA/Ed25519/ECDSA key files, remove-key, set-threshold, set-version up to 2^32, bump-version, expire, sign with key subsets / --ignore-threshold / --cross-sign). Rules: exit!=0 => file unchanged; exit 0 => parseable root, key ids = digest of key, content change => no signature left, plain successful sign => verifies under own root keys and threshold (independent aws-lc verification + Root::verify_role).",
     note="Cross-sign sequences exempt from the self-verification clause until the next content change.", ref="§5 C20"),
+ "C15": dict(cat="fault_enumeration", tech="syscall-level fault injection with strace (-e inject=…:when=N on the one datastore thread of a child process) at EVERY datastore call of an update cycle, hit verified from the injected run's log; follow-up cycles in fresh processes as oracle",
+    text="A baseline strace of one update cycle lists every openat/write/rename/unlink on the datastore directory; each is hit with SIGKILL, ENOSPC and EIO (thorough: fake short write, second kill); afterwards every genuine older repository state must be refused and the current one must load. Scenarios: re-check, timestamp-only upgrade, all-roles upgrade, consistent snapshots, delegated role, key-rotation cycle.",
+    note="Process death and failing syscalls only (no power loss); a kill after call k is a kill at entry of call k+1.", ref="§5 C15"),
 }
+
 
 
 
